@@ -45,20 +45,20 @@ impl Property for C12 {
         "C12"
     }
     fn rule(&self) -> String {
-        "sessions over a root r.td that includes i.td, where disk texts and editor buffers differ observably (each variant of i.td declares a differently named class, each variant of r.td uses one buffer class and the disk class, so outline and 'class not found' diagnostics reveal which text was analysed). Events: open/change of r.td or i.td with one of two buffer variants (a change of an unopened document is an open), and close of either document (the disk is the truth again; checked at the next analysed step): every sequence of length <= 5 (thorough <= 6) over the 4 (document, variant) events exhaustively, each with i.td present on disk, with i.td never saved (no file on disk), and with an i.td that includes r.td back (include cycle through every edited document). Reference session model: texts = disk overlaid by the buffers of opened documents, root = last touched document. After every step the last published diagnostics of every file of the model's workspace and the documentSymbol answer of every open document in it must equal a fresh ide-level analysis over the model's texts. distinct = digest of the event sequence; non-trivial = a step at which an open included document's buffer differs from disk while the other document is (re)analysed".into()
+        "sessions over a root r.td that includes i.td, where disk texts and editor buffers differ observably (each variant of i.td declares a differently named class, each variant of r.td uses one buffer class and the disk class, so outline and 'class not found' diagnostics reveal which text was analysed). Events: open/change of r.td or i.td with one of two buffer variants (a change of an unopened document is an open), close of either document (the disk is the truth again; checked at the next analysed step) and didSave of either document (no effect on which text is the truth; the disk keeps differing from the buffer, as after an external rewrite): every sequence of length <= 4 (thorough <= 6) over the 4 (document, variant) events, 2 closes and 2 saves exhaustively, each with i.td present on disk, with i.td never saved (no file on disk), and with an i.td that includes r.td back (include cycle through every edited document). Reference session model: texts = disk overlaid by the buffers of opened documents, root = last touched document. After every step the last published diagnostics of every file of the model's workspace and the documentSymbol answer of every open document in it must equal a fresh ide-level analysis over the model's texts. distinct = digest of the event sequence; non-trivial = a step at which an open included document's buffer differs from disk while the other document is (re)analysed".into()
     }
     fn assumptions(&self) -> Vec<String> {
         vec!["the disk is never modified during a session; the model takes the last touched document as root because that is what didOpen/didChange do; a close triggers no analysis, so its effect is observed at the next open/change".into()]
     }
     fn families(&self, ctx: &Ctx) -> Vec<Family> {
-        let maxlen = ctx.tier.pick(5usize, 6usize);
+        let maxlen = ctx.tier.pick(4usize, 6usize);
         vec![Family::new("all-sessions", 4, move |first, _r, emit| {
             for len in 1..=maxlen {
                 let mut idx = vec![0usize; len];
-                // the first event is an open (0..4); later events range over 0..6 (4, 5 = close r.td / i.td)
+                // the first event is an open (0..4); later events range over 0..8 (4, 5 = close r.td / i.td; 6, 7 = save)
                 idx[0] = first as usize;
                 loop {
-                    let ev: Vec<_> = idx.iter().map(|e| if *e < 4 { json!([e / 2, e % 2]) } else { json!([e - 4, 2]) }).collect();
+                    let ev: Vec<_> = idx.iter().map(|e| if *e < 4 { json!([e / 2, e % 2]) } else if *e < 6 { json!([e - 4, 2]) } else { json!([e - 6, 3]) }).collect();
                     if !emit(json!({"kind": "buffer-session", "events": ev})) {
                         return;
                     }
@@ -79,7 +79,7 @@ impl Property for C12 {
                             break;
                         }
                         k -= 1;
-                        if idx[k] + 1 < 6 {
+                        if idx[k] + 1 < 8 {
                             idx[k] += 1;
                             break;
                         }
@@ -113,7 +113,13 @@ impl Property for C12 {
                 verdict = Some(Verdict::Skip("malformed-case"));
                 break;
             };
-            let (doc, b) = (doc as usize % 2, b as usize % 3);
+            let (doc, b) = (doc as usize % 2, b as usize % 4);
+            if b == 3 {
+                // save: the editor says it wrote the document; whatever is on disk, the buffer stays the
+                // truth for an open document (here the disk never changes, so it keeps differing)
+                s.save(name(doc));
+                continue;
+            }
             if b == 2 {
                 // close: the disk is the truth again for that document; nothing is re-analysed now
                 if s.opened.contains(name(doc)) {
@@ -151,7 +157,12 @@ impl Property for C12 {
                     verdict = Some(Verdict::Fail(Failure::new(
                         "C12.diagnostics-not-from-buffers",
                         format!("C12.diagnostics-not-from-buffers:{which}"),
-                        format!("events {} step {step}: diagnostics of {uri}: {got:?}; with texts = disk overlaid by open buffers (root {root}) they are {want:?}", case["events"]),
+                        format!(
+                            "events {} step {step}: diagnostics of {uri}: {got:?}; with texts = disk overlaid by open buffers (root {root}) they are {want:?}\nreceived: {:?}\nserver points: {:?}",
+                            case["events"],
+                            s.c.notifications.iter().map(|n| format!("{} {} v{}", n["method"].as_str().unwrap_or(""), n["params"]["uri"].as_str().unwrap_or("").rsplit('/').next().unwrap_or(""), n["params"]["version"])).collect::<Vec<_>>(),
+                            s.sched.log()
+                        ),
                     )));
                     break;
                 }
